@@ -37,6 +37,11 @@ def handle : Handler := fun op a =>
         | "first" => pure (fun vs => vs.headD 0)
         | "last" => pure (fun vs => vs.getLastD 0)
         | "count" => pure (fun vs => (vs.length : Int))
+        -- aggregates that are NOT the identity on a single value (custom callables on the Python side)
+        | "range" => pure (fun vs => match vs with
+            | [] => 0
+            | v :: rest => rest.foldl max v - rest.foldl min v)
+        | "twice" => pure (fun vs => 2 * listSum vs)
         | _ => throw s!"unknown agg {name}"
       let comb := combinedIndex (inputs.map fun ps => csrIndex ps n)
       let part := mergeBreakpoints comb buf
